@@ -43,8 +43,11 @@ type hcase struct {
 const (
 	longMs  = 30000 // timeout of requests that are meant to be answered: load alone never expires it
 	shortMs = 120   // timeout of requests the upstream never answers in time
-	evWait  = 10 * time.Second
+	evWait  = 5 * time.Second // event waits; a run in which one wait failed goes on with short waits
+	maxLost = 24              // after this many failed waits the driver stops taking new cases (reported)
 )
+
+var lost int64 // failed waits so far
 
 type rq struct {
 	tok   string
@@ -78,6 +81,7 @@ func (q *rq) wait(d time.Duration) bool {
 	case r := <-q.ch:
 		q.got, q.rep = true, r
 	case <-time.After(d):
+		atomic.AddInt64(&lost, 1)
 	}
 	return q.got
 }
@@ -93,6 +97,15 @@ type env struct {
 	nconn  int
 	epoch  int
 	probes int
+	lost0  int64
+}
+
+// w is the deadline of an event wait: generous until a wait of this run has failed.
+func (e *env) w(extra time.Duration) time.Duration {
+	if atomic.LoadInt64(&lost) > e.lost0 {
+		return 300*time.Millisecond + extra
+	}
+	return evWait + extra
 }
 
 func (e *env) dial() *xc02.Client {
@@ -118,7 +131,7 @@ func u64(x interface{}) uint64 {
 
 // awaitTable waits until the proxy's client stream table has handled a response frame with this id.
 func (e *env) awaitTable(mark int, uid uint32) bool {
-	_, ok := e.sched.AwaitEvent(mark, evWait, func(ev gate.Event) bool {
+	_, ok := e.sched.AwaitEvent(mark, e.w(0), func(ev gate.Event) bool {
 		return ev.Name == "xsc.resp" && len(ev.KV) >= 2 && u64(ev.KV[1]) == uint64(uid)
 	})
 	return ok
@@ -132,7 +145,7 @@ func (e *env) warm(cl *xc02.Client, name string) bool {
 		tok := fmt.Sprintf("p%s-%d", name, e.probes)
 		q := &rq{tok: tok, dsid: e.freshID(), cl: cl}
 		q.ch = cl.Send(q.dsid, tok, "ok:0", longMs, false, true)
-		if q.wait(evWait) && q.rep.OK {
+		if q.wait(e.w(0)) && q.rep.OK {
 			return true
 		}
 		time.Sleep(10 * time.Millisecond)
@@ -144,6 +157,7 @@ func (e *env) runHop(name string, c hcase) map[string]interface{} {
 	e.sched.Reset()
 	e.up.Forget()
 	e.tr.Emit(vh.Ev{"ev": "run", "name": name, "mode": "hop", "case": c})
+	e.lost0 = atomic.LoadInt64(&lost)
 	conns := map[int]*xc02.Client{}
 	defer func() {
 		for _, cl := range conns {
@@ -178,7 +192,7 @@ func (e *env) runHop(name string, c hcase) map[string]interface{} {
 			}
 			q.ch = cl.Send(q.dsid, q.tok, "hold", tmo, s.Short, false)
 			reqs[s.R] = q
-			q.arr = e.up.WaitArrival(q.tok, evWait, q.poll)
+			q.arr = e.up.WaitArrival(q.tok, e.w(0), q.poll)
 		case "ans", "dup":
 			q := reqs[s.R]
 			if q == nil || q.arr == nil || q.epoch != e.epoch {
@@ -192,7 +206,7 @@ func (e *env) runHop(name string, c hcase) map[string]interface{} {
 			}
 			e.awaitTable(mark, q.arr.UID)
 			if !q.short {
-				q.wait(evWait)
+				q.wait(e.w(0))
 			}
 		case "ghost":
 			max, uc := e.up.Snapshot()
@@ -206,14 +220,14 @@ func (e *env) runHop(name string, c hcase) map[string]interface{} {
 			}
 		case "tmo":
 			if q := reqs[s.R]; q != nil {
-				q.wait(shortMs*time.Millisecond + evWait)
+				q.wait(e.w(shortMs * time.Millisecond))
 			}
 		case "close":
 			e.up.CloseAll()
 			e.epoch++
 			for _, q := range reqs {
 				if q.arr != nil {
-					q.wait(evWait)
+					q.wait(e.w(0))
 				}
 			}
 			e.warm(getConn(1), name)
@@ -226,26 +240,27 @@ func (e *env) runHop(name string, c hcase) map[string]interface{} {
 			continue
 		}
 		if q.short {
-			q.wait(shortMs*time.Millisecond + evWait)
+			q.wait(e.w(shortMs * time.Millisecond))
 		} else if q.arr != nil && q.epoch == e.epoch {
 			mark := e.sched.Mark()
 			if e.up.Reply(q.arr.Conn, q.arr.UID, q.tok, "ans") {
 				e.awaitTable(mark, q.arr.UID)
 			}
-			q.wait(evWait)
+			q.wait(e.w(0))
 		} else {
-			q.wait(evWait)
+			q.wait(e.w(0))
 		}
 	}
 	time.Sleep(15 * time.Millisecond) // frames that must not come
 	e.tr.Emit(vh.Ev{"ev": "quiesce"})
-	return map[string]interface{}{"name": name, "collisions": collisions, "diverged": diverged}
+	return map[string]interface{}{"name": name, "collisions": collisions, "diverged": diverged, "lost": atomic.LoadInt64(&lost) - e.lost0}
 }
 
 // runStorm: concurrent pipelined clients on shared downstream connections.
 func (e *env) runStorm(name string, rng *rand.Rand, nconn, workersPerConn, bursts int, withClose bool) map[string]interface{} {
 	e.sched.Reset()
 	e.up.Forget()
+	e.lost0 = atomic.LoadInt64(&lost)
 	e.tr.Emit(vh.Ev{"ev": "run", "name": name, "mode": "storm", "case": map[string]interface{}{"conns": nconn, "workers": workersPerConn, "bursts": bursts, "close": withClose}})
 	conns := []*xc02.Client{}
 	for i := 0; i < nconn; i++ {
@@ -309,7 +324,7 @@ func (e *env) runStorm(name string, rng *rand.Rand, nconn, workersPerConn, burst
 					}
 					for _, q := range qs {
 						atomic.AddInt64(&total, 1)
-						if !q.wait(time.Duration(longMs)*time.Millisecond + evWait) {
+						if !q.wait(e.w(100 * time.Millisecond)) {
 							continue
 						}
 						if !q.rep.OK {
@@ -389,13 +404,17 @@ func main() {
 	}
 	cl.Close()
 	tr.Emit(vh.Ev{"ev": "quiesce"})
-	n := 0
+	n, skipped := 0, 0
 	switch *mode {
 	case "hop":
 		idx := 0
 		err := vh.ReadCases(*cases, func(raw json.RawMessage) error {
 			idx++
 			if (idx-1)%*shards != *shard {
+				return nil
+			}
+			if atomic.LoadInt64(&lost) > maxLost {
+				skipped++
 				return nil
 			}
 			var c hcase
@@ -409,10 +428,11 @@ func main() {
 		vh.Must(err, "cases")
 	case "storm":
 		rng := rand.New(rand.NewSource(vh.Seed()*1000 + int64(*shard)))
-		for i := 0; i < *rounds; i++ {
+		for i := 0; i < *rounds && atomic.LoadInt64(&lost) <= maxLost; i++ {
 			n++
 			rs.Put(e.runStorm(fmt.Sprintf("s%d.%d", *shard, i), rng, 1+rng.Intn(3), 1+rng.Intn(3), 4+rng.Intn(6), rng.Intn(4) == 0))
 		}
 	}
-	fmt.Printf("c02 %s runs=%d events=%d\n", *mode, n, tr.Len())
+	rs.Put(map[string]interface{}{"summary": true, "runs": n, "skipped": skipped, "lost": atomic.LoadInt64(&lost)})
+	fmt.Printf("c02 %s runs=%d skipped=%d lost-waits=%d events=%d\n", *mode, n, skipped, lost, tr.Len())
 }
